@@ -2,6 +2,8 @@
 #
 # SPDX-License-Identifier: MIT
 
+from numbers import Integral
+
 from .checks import check_data
 from .specs import (
     CHANNEL_MESSAGES,
@@ -79,6 +81,10 @@ def decode_message(msg_bytes, time=0, check=True):
     status_byte = msg_bytes[0]
     data = msg_bytes[1:]
 
+    if check and not isinstance(status_byte, Integral):
+        # 248.0 == 248 would find the spec of a clock message below.
+        raise TypeError('status byte must be int')
+
     try:
         spec = SPEC_BY_STATUS[status_byte]
     except KeyError as ke:
@@ -96,6 +102,8 @@ def decode_message(msg_bytes, time=0, check=True):
 
         end = data[-1]
         data = data[:-1]
+        if check and not isinstance(end, Integral):
+            raise TypeError('sysex end byte must be int')
         if end != SYSEX_END:
             raise ValueError(f'invalid sysex end byte {end!r}')
     elif len(data) != spec['length'] - 1:
